@@ -28,6 +28,7 @@ CONSTANTS
   WPropose = 10
   WCommit = 30
   WApp = 35
+  LateBias = 3
   WStore = 20
 INVARIANT EmitAtDepth
 CHECK_DEADLOCK FALSE
